@@ -9,6 +9,18 @@ PY = '/venv/bin/python harness/vcheck.py'
 
 # property id -> (technique, level text, level note, design ref)
 CHECKS = {
+    'C02': ('Lean 4 theorems over the shared constraint model + model/implementation correspondence',
+            'Kernel-checked theorem verify_eq_spec: on every well-typed column, for every constraint kind, precision, '
+            'epsilon, strict or sloppy typing, in verification or detection mode, the model of the verifier returns '
+            'true exactly when the independently stated documented meaning (quantified over the non-null cells, never '
+            'through the aggregates) holds; plus: verdict independent of the detect flag, missing field fails, null '
+            'value passes, totals are the verdict counts, a null-valued constraint is inert. The model is tied to the '
+            'code by running verify_df and the Lean model on generated boundary-directed (frame, constraint-set) '
+            'pairs; the documented meaning is also recomputed in Python on the cells as the oracle, incl. to_frame() '
+            'and str().',
+            'Trusted: Lean kernel; pandas aggregates (tied by cx.calc in the C07 check); reals are exact rationals '
+            '(epsilon and bounds generated dyadic); re.match as a table. Two known findings (categorical columns).',
+            'DESIGN.md 4 C02'),
     'C04': ('Lean 4 theorems over a line-by-line model of check_strings + model/implementation correspondence',
             'Kernel-checked theorem check_pass_iff: for every pair of line lists, every option record and every match '
             'relation for the ignore-patterns, the model of FilesComparison.check_strings passes exactly when the '
@@ -22,6 +34,17 @@ CHECKS = {
             'Trusted: Lean kernel; CPython re enters as the table of re.match results; file decoding. Two known '
             'findings (trailing empty line normalisation).',
             'DESIGN.md 4 C04'),
+    'C07': ('Lean 4 theorems over the shared constraint model + model/implementation correspondence',
+            'Kernel-checked theorems over the model of discover_field_constraints for every well-typed column: type is '
+            'the column type; min / max are attained by a record and extremal; min / max length attained and extremal '
+            'in characters; sign is the strongest class all values share (none when mixed); max_nulls present iff the '
+            'null count is < 2 and equals it; no_duplicates iff string/int field with > 1 non-null values all distinct; '
+            'allowed_values iff 1..20 distinct strings and equals their sorted list; only the type for absent data. '
+            'Tied to the code by running discover_df and the pandas aggregates against the model on generated '
+            'columns of every family; statistics are also recomputed from the cells as the oracle.',
+            'Trusted: Lean kernel; pandas aggregates (tied by cx.calc); rexpy output replaced by indices. Two known '
+            'findings (no_duplicates for bool / date fields). SQLite discovery is exercised by the C08 check.',
+            'DESIGN.md 4 C07'),
     'C10': ('Lean 4 theorems over a model of the regeneration decision + model/implementation correspondence',
             'Kernel-checked theorems: over every history of set_regeneration calls the decision for a kind is the last '
             'setting for it, else the last setting for all kinds, else no; kinds named on a command line (C19 meaning) '
